@@ -518,6 +518,9 @@ NvmModule *nvm_deserialize(const uint8_t *data, uint32_t size) {
     mod->header = header;
     mod->section_count = header.section_count;
 
+    /* End of the last byte any section (or the directory) accounts for */
+    uint32_t content_end = dir_end;
+
     /* Parse section directory */
     for (uint32_t i = 0; i < header.section_count; i++) {
         uint32_t dir_off = NVM_HEADER_SIZE + i * NVM_SECTION_ENTRY_SIZE;
@@ -534,6 +537,7 @@ NvmModule *nvm_deserialize(const uint8_t *data, uint32_t size) {
         mod->sections[i].type   = sec_type;
         mod->sections[i].offset = sec_offset;
         mod->sections[i].size   = sec_size;
+        if (sec_offset + sec_size > content_end) content_end = sec_offset + sec_size;
 
         const uint8_t *sec_data = data + sec_offset;
 
@@ -620,6 +624,13 @@ NvmModule *nvm_deserialize(const uint8_t *data, uint32_t size) {
                 /* Unknown section type - skip */
                 break;
         }
+    }
+
+    /* Bytes behind the last section belong to no part of the module: an extended tail.  The CRC does not
+     * see every such tail (zero bytes appended to a body whose CRC register is 0 leave it unchanged). */
+    if (content_end != size) {
+        nvm_module_free(mod);
+        return NULL;
     }
 
     return mod;
